@@ -248,10 +248,12 @@ Section cluster.
   Context (H : list (N * N * bool)).
   Let HS : list N := map (fun o => o.1.2) H.
 
-  (** Premises of C01: distinct valid stamps, all within one forgiveness period. *)
+  (** Premises of C01: valid stamps, all within one forgiveness period; two operations on the
+      same id never share a stamp unless they are the same operation (a bulk operation stamps
+      all its ids alike; stamps of different operations differ by C09/C11). *)
   Context (Hvalid : forall k t d, (k, t, d) ∈ H -> valid_ts t = true /\ 1 <= ts_tick t).
   Context (Hwithin : forall k t d k' t' d', (k, t, d) ∈ H -> (k', t', d') ∈ H -> ts_tick t' < ts_tick t + W).
-  Context (Hdistinct : forall k t d k' d', (k, t, d) ∈ H -> (k', t, d') ∈ H -> k = k' /\ d = d').
+  Context (Hdistinct : forall k t d d', (k, t, d) ∈ H -> (k, t, d') ∈ H -> d = d').
 
   Definition NInv (x : nodestate) : Prop :=
     AInv x /\ NSRC x.1 = 2%nat /\ MaxsFrom (versions x.1) HS /\
@@ -387,7 +389,7 @@ Section cluster2.
   Context (H : list (N * N * bool)).
   Context (Hvalid : forall k t d, (k, t, d) ∈ H -> valid_ts t = true /\ 1 <= ts_tick t).
   Context (Hwithin : forall k t d k' t' d', (k, t, d) ∈ H -> (k', t', d') ∈ H -> ts_tick t' < ts_tick t + W).
-  Context (Hdistinct : forall k t d k' d', (k, t, d) ∈ H -> (k', t, d') ∈ H -> k = k' /\ d = d').
+  Context (Hdistinct : forall k t d d', (k, t, d) ∈ H -> (k, t, d') ∈ H -> d = d').
 
   Notation NInvH := (NInv H).
 
@@ -516,7 +518,7 @@ Section convergence.
   Context (H : list (N * N * bool)).
   Context (Hvalid : forall k t d, (k, t, d) ∈ H -> valid_ts t = true /\ 1 <= ts_tick t).
   Context (Hwithin : forall k t d k' t' d', (k, t, d) ∈ H -> (k', t', d') ∈ H -> ts_tick t' < ts_tick t + W).
-  Context (Hdistinct : forall k t d k' d', (k, t, d) ∈ H -> (k', t, d') ∈ H -> k = k' /\ d = d').
+  Context (Hdistinct : forall k t d d', (k, t, d) ∈ H -> (k, t, d') ∈ H -> d = d').
 
   Notation NInvH := (NInv H).
 
@@ -743,7 +745,7 @@ Section convergence.
     intros (_ & _ & _ & Hsound) [Hin Hmax] Hle.
     destruct (view x.1 k) as [[u ud]|] eqn:Ev; [|contradiction]. cbn in Hle.
     pose proof (Hsound _ _ _ Ev) as Hu. pose proof (Hmax _ _ Hu). assert (u = t) by lia. subst u.
-    destruct (Hdistinct _ _ _ _ _ Hin Hu) as [_ ->]. reflexivity.
+    rewrite (Hdistinct _ _ _ _ Hin Hu). reflexivity.
   Qed.
 
   (** C01 (model level): all operations are issued in the first part of the trace; in the
@@ -855,7 +857,7 @@ Section c06.
   Context (H : list (N * N * bool)).
   Context (Hvalid : forall k t d, (k, t, d) ∈ H -> valid_ts t = true /\ 1 <= ts_tick t).
   Context (Hwithin : forall k t d k' t' d', (k, t, d) ∈ H -> (k', t', d') ∈ H -> ts_tick t' < ts_tick t + W).
-  Context (Hdistinct : forall k t d k' d', (k, t, d) ∈ H -> (k', t, d') ∈ H -> k = k' /\ d = d').
+  Context (Hdistinct : forall k t d d', (k, t, d) ∈ H -> (k, t, d') ∈ H -> d = d').
 
   (** After a write — whatever its result — the issuer's STORE holds every operation of
       the mutation or a newer one for the same id, and so does the store of every replica
@@ -928,3 +930,29 @@ Section c06.
       cbn. apply (elem_of_list_fmap_1 (fun d => (d_id d, d_ts d, false)) puts x Hx).
   Qed.
 End c06.
+
+(** ** Deciding the premises of C01 on a concrete history (for the non-vacuity examples) *)
+
+Definition cluster_hist_ok (H : list (N * N * bool)) : bool :=
+  forallb (fun x : N * N * bool =>
+    valid_ts x.1.2 && (1 <=? ts_tick x.1.2) &&
+    forallb (fun y : N * N * bool =>
+      (ts_tick y.1.2 <? ts_tick x.1.2 + W) &&
+      (if (x.1.1 =? y.1.1) && (x.1.2 =? y.1.2) then Bool.eqb x.2 y.2 else true)) H) H.
+
+Lemma cluster_hist_ok_spec H :
+  cluster_hist_ok H = true ->
+  (forall k t d, (k, t, d) ∈ H -> valid_ts t = true /\ 1 <= ts_tick t) /\
+  (forall k t d k' t' d', (k, t, d) ∈ H -> (k', t', d') ∈ H -> ts_tick t' < ts_tick t + W) /\
+  (forall k t d d', (k, t, d) ∈ H -> (k, t, d') ∈ H -> d = d').
+Proof.
+  unfold cluster_hist_ok. rewrite forallb_forall. intros Hall. split; [|split].
+  - intros k t d Hin. apply elem_of_list_In in Hin. apply Hall in Hin. cbn [fst snd] in Hin.
+    apply andb_true_iff in Hin as [Hin _]. apply andb_true_iff in Hin as [Hv H1]. split; [exact Hv|lia].
+  - intros k t d k' t' d' Hin Hin'. apply elem_of_list_In in Hin, Hin'. apply Hall in Hin.
+    apply andb_true_iff in Hin as [_ Hin]. rewrite forallb_forall in Hin. apply Hin in Hin'. cbn [fst snd] in Hin'.
+    apply andb_true_iff in Hin' as [Hlt _]. lia.
+  - intros k t d d' Hin Hin'. apply elem_of_list_In in Hin, Hin'. apply Hall in Hin.
+    apply andb_true_iff in Hin as [_ Hin]. rewrite forallb_forall in Hin. apply Hin in Hin'. cbn [fst snd] in Hin'.
+    apply andb_true_iff in Hin' as [_ He]. rewrite !N.eqb_refl in He. cbn [andb] in He. apply Bool.eqb_prop in He. exact He.
+Qed.
